@@ -133,6 +133,14 @@ theorem extractF_never_invalid (f : Fmt) (t : List Char) (f0 : Mpf.F) : (extract
 example : (extractF (mkG "-.5e-3,".toList [] {}) ⟨2, 1, 1, [5]⟩).2.2 = false ∧ (extractF (mkG "-.5e-3,".toList [] {}) ⟨2, 1, 1, [5]⟩).2.1 ≠ none := by
   decide +kernel
 
+/-- `extractF_not_good`: a stream that is not good() on entry gets failbit, nothing is read, the destination is untouched. -/
+theorem extractF_not_good (i : IStream) (h : i.good = false) (f0 : Mpf.F) :
+    extractF i f0 = ({ i with fail := true }, none, false) := by
+  unfold extractF
+  rw [scanF_not_good' i h]
+
+example : extractF { rest := ['1'], eof := true } ⟨2, 1, 1, [5]⟩ = ({ rest := ['1'], eof := true, fail := true }, none, false) := by decide +kernel
+
 /-! ## (b) round trips -/
 
 section
